@@ -151,6 +151,12 @@ ARGS = ["", "0", "1", "-1", "2147483648", "9223372036854775807", "-9223372036854
         "@17", "$$$", "charfromstr(\"a\",5)", "substr(\"\",0,0)", "strstr(\"\",\"\")", "cpu", "mompass", "moment",
         "1 2", "\"\\0\"", "\"\\i\"", "\"\\1000\"", "\"\\x1000\"", "(1<<63)/(0-1)", "(1<<63)#(0-1)", "1<<63", "0-(1<<63)"]
 CPUS = ["z80", "68000", "8051", "6502", "320c30", "16c84"]
+# macro definitions x call argument lists (enumerated completely)
+MAC_DECLS = ["", "a", "a,b", "a=5", "a,b=7", "a=1,b=2", "a,b,c", "{GLOBALSYMBOLS}", "a,{INTLABEL}", "lbl,a,{INTLABEL}", "a,{NOEXPAND}", "a=\"x,y\""]
+MAC_BODIES = ["\tdb a", "\tdb a,b", "\tdb ALLARGS", "\tdb ARGCOUNT", "\tshift\n\tdb a", "\tshift\n\tshift\n\tdb ARGCOUNT", "\tif ARGCOUNT>1\n\texitm\n\tendif\n\tdb 1",
+              "\tirp x,ALLARGS\n\tdb x\n\tendm", "\tdb \"a\"", "\tnop"]
+MAC_CALLS = ["", "1", "1,2", "1,2,3", "1,2,3,4,5,6,7,8,9", "a=1", "a=1,a=2", "b=2,a=1", "b=2,a=1,7", "a=3,b=4,c=5,d=6", "zz=1", "1,a=2", ",", ",,", "1,,3",
+             "=", "a=", "=1", "a==1", "\"a=1\"", "(1,2)", "[1,2]", "<1,2>", "a=b=c", "1 2", "'", "\"", "a=\"", "ALLARGS", "ARGCOUNT"]
 # construct interplay (enumerated completely): opener / inner statement / closer / stray statement
 OPENERS = [("m1\tmacro", "\tendm\n\tm1"), ("\tirp x,1,2", "\tendm"), ("\tirpc x,\"ab\"", "\tendm"), ("\tirpn 1,x,1,2", "\tendm"),
            ("\trept 2", "\tendm"), ("\tif 1", "\tendif"), ("\tif 0", "\tendif"), ("\tswitch 1\n\tcase 1", "\tendcase"),
@@ -267,6 +273,9 @@ def plan(tier, seed):
     total = len(OPENERS) * len(INNERS) * len(INNERS)
     for i in range(0, total, 400):
         cases.append({"gen": "nest", "lo": i, "hi": min(total, i + 400)})
+    total = len(MAC_DECLS) * len(MAC_BODIES) * len(MAC_CALLS)
+    for i in range(0, total, 300):
+        cases.append({"gen": "maccall", "lo": i, "hi": min(total, i + 300)})
     # E8 raw bytes
     n8 = 20000 if thorough else 1000
     for i in range(0, n8, 100):
@@ -605,6 +614,14 @@ def run_case(sim, case):
             src = "\tcpu %s\n%s\n%s\n%s\n%s\n\tnop\n" % ("z80" if idx & 1 else "68000", opener, INNERS[i1], closer if (idx >> 1) & 1 else "", INNERS[i2])
             run_one(sim, acc, "asl", sc_asl(src, ["-U"] if idx % 7 == 0 else []), "nest %d" % idx, "construct-interplay")
         acc.sample = {"space": "construct interplay", "example": src}
+    elif g == "maccall":
+        for idx in range(case["lo"], case["hi"]):
+            d = idx % len(MAC_DECLS)
+            b = (idx // len(MAC_DECLS)) % len(MAC_BODIES)
+            c = idx // (len(MAC_DECLS) * len(MAC_BODIES))
+            src = "\tcpu z80\nmm\tmacro %s\n%s\n\tendm\n\tmm %s\nl1:\tmm %s\n\tnop\n" % (MAC_DECLS[d], MAC_BODIES[b], MAC_CALLS[c], MAC_CALLS[(c * 7 + 3) % len(MAC_CALLS)])
+            run_one(sim, acc, "asl", sc_asl(src), "maccall %d" % idx, "macro-call")
+        acc.sample = {"space": "macro definition x call arguments", "example": src}
     elif g == "raw":
         rng = Rng(case["seed"])
         for _ in range(case["n"]):
